@@ -11,14 +11,17 @@ from harness import common
 
 def eligible(t):
     p, m = t['prog'], t['meta']
-    if p['type'] != 'direct' or p['flags'].get('sub') or p['flags'].get('multi_trigger') or p['flags'].get('pause'):
+    if p['flags'].get('multi_trigger') or p['flags'].get('pause'):
         return False
     if m.get('c20') or m.get('dups'):
         return False
-    if any(o['op'] in ('stop', 'skip') for o in m.get('ops', [])):
+    if any(o['op'] in ('stop',) for o in m.get('ops', [])):
         return False
     for n, d in p['tasks'].items():
-        if d['kind'] != 'action' or d['timeout'] or d['pauseBefore']:
+        if d['kind'] not in ('action', 'workflow') or d['timeout'] or d['pauseBefore']:
+            return False
+        # a task calling a sub-workflow: one instance per call (no items, no retry) - what the semantics models
+        if d['kind'] == 'workflow' and (d['items'] >= 0 or d['retry']):
             return False
     # "as if the task had produced its new result the first time" is only meaningful when the failed attempt
     # did not already start follow-up work (an on-error / on-complete branch that ran cannot be undone)
@@ -28,6 +31,8 @@ def eligible(t):
             tgt = [x for x in t['steps'][k - 1]['obs']['tk'] if x['sid'] == e.get('target')]
             if not tgt or tgt[0]['next'] or tgt[0]['state'] != 'ERROR' or tgt[0]['isJoin']:
                 return False
+            if p['type'] != 'direct' or p['flags'].get('sub'):
+                return False
     last = t['steps'][-1]['obs']
     if not last['pend']['quiet']:
         return False
@@ -35,16 +40,25 @@ def eligible(t):
     root = [w for w in last['wf'] if w['sid'] == 'r']
     if not root or root[0]['state'] not in ('SUCCESS', 'ERROR'):
         return False
+    # (cancelled sub-workflows, executions left unfinished below a finished root: other clauses own those)
+    if any(w['state'] not in ('SUCCESS', 'ERROR') for w in last['wf']):
+        return False
     names = [x['name'] for x in last['tk']]
-    return len(names) == len(set(names))
+    wnames = [w['name'] for w in last['wf']]
+    return len(names) == len(set(names)) and len(wnames) == len(set(wnames))
 
 
 def effective_outcomes(t):
     """SUCCESS / ERROR of every task as its LAST executed attempt (all items together) says - from the
-    oracle and the attempts the executor ran, not from observed states."""
+    oracle and the attempts the executor ran, not from observed states; SKIPPED for a task the operator skipped."""
     runs = {}
     for (tag, i, a) in t['meta'].get('action_runs', []):
         runs[(tag, i)] = max(runs.get((tag, i), -1), a)
+    skipped = set()
+    for st in t['steps']:
+        e = st['ev']
+        if e['kind'] == 'op' and e['what'] == 'rerun' and e.get('arg') == 'skip' and e['exc'] == 'none' and e.get('target'):
+            skipped.add(e['target'].split('/')[-1].split('#')[0])
     eff = {}
     for n, d in t['prog']['tasks'].items():
         oc = d['outcome']
@@ -60,14 +74,15 @@ def effective_outcomes(t):
                 ok = False
         if d.get('failOn') and ok:
             ok = False
-        eff[n] = 'SUCCESS' if ok else 'ERROR'
+        eff[n] = 'SKIPPED' if n in skipped else ('SUCCESS' if ok else 'ERROR')
     return eff
 
 
 def final_of(t):
     o = t['steps'][-1]['obs']
     root = [w for w in o['wf'] if w['sid'] == 'r'][0]
-    return {'wf': root['state'], 'tasks': [[x['name'], x['state']] for x in o['tk'] if x['wf'] == 'r']}
+    return {'wf': root['state'], 'tasks': [[x['name'], x['state']] for x in o['tk']],
+            'subs': [[w['name'], w['state']] for w in o['wf'] if w['sid'] != 'r']}
 
 
 def judge(d, traces, chunk=300):
